@@ -62,6 +62,19 @@ func main() {
 		workers := fs.Int("workers", 0, "")
 		fs.Parse(os.Args[3:])
 		os.Exit(core.Hashes(os.Args[2], *tier, *seed, *runs, *workers))
+	case "hangprobe":
+		// visim hangprobe <id> <tier> <seed> <run index> <seconds> [replay file]
+		if len(os.Args) < 7 {
+			usage()
+		}
+		seed, _ := strconv.ParseUint(os.Args[4], 10, 64)
+		idx, _ := strconv.ParseUint(os.Args[5], 10, 64)
+		secs, _ := strconv.Atoi(os.Args[6])
+		rp := ""
+		if len(os.Args) > 7 {
+			rp = os.Args[7]
+		}
+		os.Exit(core.HangProbe(os.Args[2], os.Args[3], seed, idx, rp, secs))
 	case "replay":
 		if len(os.Args) < 3 {
 			usage()
